@@ -24,7 +24,7 @@ def c01_shapes(tier):
     out = list(quick)
     for c in (1, 2, 4, 7, 8, 9):
         out.append((1, c, 0, 0, 3))
-    out += [(2, 2, 6, 0, 2), (2, 5, 9, 0, 2), (2, 8, 8, 0, 2), (2, 0, 1, 0, 2), (3, 0, 3, 7, 2), (1, 0, 0, 0, 4)]
+    out += [(2, 2, 6, 0, 2), (2, 8, 8, 0, 2), (2, 0, 1, 0, 2)]
     return out
 
 def c03_shapes(tier):
@@ -36,11 +36,7 @@ def c03_shapes(tier):
     out = list(quick)
     for st in (0, 1, 2):
         out.append((st, 1, 2, 5, 0, 0, 0, 0))
-        out.append((st, 1, 1, 5, 1, 0, 0, 0))
-        out.append((st, 2, 1, 4, 0, 0, 0, 0))
-        out.append((st, 1, 2, 6, 0, 2, 1, 0))
-        out.append((st, 1, 2, 7, 0, 2, 1, 0))
-    out.append((0, 1, 1, 4, 0, 0, 0, 1))
+    out += [(0, 1, 2, 6, 0, 2, 1, 0), (1, 1, 2, 6, 0, 2, 1, 0), (0, 1, 1, 4, 0, 0, 0, 1)]
     return out
 
 def c11_shapes(tier):
@@ -92,9 +88,9 @@ def c07f_shapes(tier):
     if tier == 'quick':
         return [(2, 1000, 500, 4), (10, 100, 0, 4), (3, 1000, 2000, 4), (1, 10000, 50, 3), (0, 1000, 500, 2), (1000, 1000, 50, 3), (2, 1000, 500, 2, 0, 0, 0, 1)]
     out = []
-    for r in (1, 2, 3, 10, 1000):
+    for r in (1, 2, 10, 1000):
         for iv in (100, 1000, 10000):
-            for mq in (0, 50, 2000):
+            for mq in (0, 2000):
                 out.append((r, iv, mq, 4))
     out += [(0, 1000, 500, 3), (3, 1000, 500, 4, 0, 0, 0, 1), (2, 1000, 500, 5), (10, 100, 50, 5)]
     return out
@@ -104,9 +100,9 @@ def c07h_shapes(tier):
     if tier == 'quick':
         return [(2, 1, 500, 4, 2), (1, 1, 2000, 4, 1), (10, 2, 50, 4, 2), (0, 1, 500, 2, 1), (600, 1, 20, 3, 1), (7, 1, 100, 3, 1), (2, 1, 500, 2, 1, 0, 0, 1)]
     out = []
-    for q in (1, 2, 3, 7, 10, 150, 600):
+    for q in (1, 2, 7, 150, 600):
         for d in (1, 3):
-            for mq in (0, 50, 2000):
+            for mq in (0, 2000):
                 out.append((q, d, mq, 4, 2))
     out += [(0, 1, 500, 3, 2), (2, 1, 500, 3, 2, 0, 0, 1), (2, 1, 500, 5, 2), (7, 1, 100, 5, 1)]
     return out
@@ -115,7 +111,7 @@ def c04_shapes(tier):
     # (ops, flow rule on r0, isolation threshold on r1, sums after every op)
     if tier == 'quick':
         return [(3, 1, 1, 0), (2, 0, 2, 1), (3, 2, 0, 1)]
-    return [(3, 1, 1, 0), (2, 0, 2, 1), (3, 2, 0, 1), (4, 1, 1, 0), (3, 1, 2, 1), (3, 0, 0, 1)]
+    return [(3, 1, 1, 0), (2, 0, 2, 1), (3, 2, 0, 1), (3, 1, 2, 1), (3, 0, 0, 1)]
 
 def c05_shapes(tier):
     if tier == 'quick':
@@ -126,18 +122,18 @@ def c13_shapes(tier):
     if tier == 'quick':
         return [(0, 0, 0), (1, 2, 1), (2, 1, 2), (0, 3, 1), (2, 2, 2), (1, 0, 2), (0, 0, 1), (0, 1, 0), (2, 1, 0)]
     out = []
-    for a in range(0, 4):
-        for b in range(0, 4):
-            for c in range(0, 4):
+    for a in range(0, 3):
+        for b in range(0, 3):
+            for c in range(0, 3):
                 out.append((a, b, c))
-    out += [(4, 4, 0), (0, 4, 4), (4, 0, 4), (1, 4, 1)]
+    out += [(0, 3, 1), (3, 0, 0), (0, 0, 3), (1, 3, 0)]
     return out
 
 def c10_shapes(tier):
     # (family, ops, duplicate-in-pool)
     if tier == 'quick':
         return [(f, 2, 0) for f in range(5)] + [(0, 2, 1), (3, 2, 1)]
-    return [(f, 2, 0) for f in range(5)] + [(f, 2, 1) for f in range(5)] + [(0, 3, 0), (1, 3, 0), (3, 3, 0), (3, 3, 1)]
+    return [(f, 2, 0) for f in range(5)] + [(f, 2, 1) for f in range(5)]
 
 def c12_shapes(fam, tier):
     """the last position (p7) = 1 adds a later append of a good rule on the same resource and a second round of entries"""
@@ -149,14 +145,16 @@ def c12_shapes(fam, tier):
     if fam == 'flow':
         full = list(itertools.product(range(4), range(3), range(4), range(3), range(6), range(2)))
         if tier != 'quick':
-            return [pad(t, i % 2 == 0) for i, t in enumerate(full) if i % 3 == 0]
+            base = c12_shapes('flow', 'quick')
+            return base + [x for x in (pad(t, i % 2 == 0) for i, t in enumerate(full) if i % 7 == 0) if x not in base]
         for i, (a, b, c) in enumerate(itertools.product(range(4), range(3), range(4))):
             out.append(pad((a, b, c, i % 3, (i * 5 + a) % 6, 1 if i % 17 == 0 else 0), i % 2 == 0))
         return out
     if fam == 'breaker':
         full = list(itertools.product(range(4), range(3), range(6), range(2)))
         if tier != 'quick':
-            return [pad(t, i % 2 == 0) for i, t in enumerate(full) if i % 3 == 0]
+            base = c12_shapes('breaker', 'quick')
+            return base + [x for x in (pad(t, i % 2 == 0) for i, t in enumerate(full) if i % 7 == 0) if x not in base]
         for i, (a, b) in enumerate(itertools.product(range(4), range(3))):
             out.append(pad((a, b, (i * 5) % 6, 0), True))
             out.append(pad((a, b, (i * 5 + 3) % 6, 1 if i % 5 == 0 else 0), False))
@@ -164,7 +162,8 @@ def c12_shapes(fam, tier):
     if fam == 'hotspot':
         full = list(itertools.product(range(2), range(3), range(7), range(3), (0, 1, 3), range(2), range(2)))
         if tier != 'quick':
-            return [pad(t, i % 2 == 0) for i, t in enumerate(full) if i % 3 == 0]
+            base = c12_shapes('hotspot', 'quick')
+            return base + [x for x in (pad(t, i % 2 == 0) for i, t in enumerate(full) if i % 7 == 0) if x not in base]
         for i, (a, b, c) in enumerate(itertools.product(range(2), range(3), range(7))):
             out.append(pad((a, b, c, i % 3, (0, 1, 3)[(i // 2) % 3], i % 2, 1 if i % 19 == 0 else 0), i % 3 != 2))
         return out
@@ -183,9 +182,7 @@ def c09_shapes(tier):
     if tier == 'quick':
         return [(0, 0, 2, 0), (0, 1, 2, 0), (4, 0, 1, 0), (4, 1, 2, 0), (1, 0, 2, 0), (2, 0, 2, 0), (3, 0, 2, 0), (2, 0, 1, 4), (0, 1, 1, 3), (0, 1, 4, 0, 1), (3, 0, 1, 0, 0, 1)]
     out = c09_shapes('quick')
-    out += [(1, 0, 3, 0), (3, 0, 3, 0)]
-    out += [(2, 0, 2, 4), (0, 1, 2, 3), (4, 1, 2, 2), (1, 0, 2, 5), (3, 1, 2, 1), (0, 1, 4, 0, 1), (4, 1, 4, 0, 1), (0, 1, 5, 0, 1),
-            (3, 0, 1, 0, 0, 2), (3, 0, 2, 0, 0, 1), (1, 0, 2, 0, 0, 1), (2, 0, 2, 0, 0, 1), (0, 1, 2, 0, 0, 1), (4, 0, 2, 3, 0, 1)]
+    out += [(4, 1, 2, 2), (1, 0, 2, 5), (3, 1, 2, 1), (4, 1, 4, 0, 1), (3, 0, 1, 0, 0, 2), (1, 0, 2, 0, 0, 1), (2, 0, 2, 0, 0, 1)]
     return out
 
 def c08_shapes(tier):
@@ -340,7 +337,7 @@ PROPS = {
     'C09': {
         'level': 'model_checking',
         'bounds': 'all five metric types x both strategies, 1-2 rules; thresholds symbolic in quarters in [0,4] (CPU: [0,100]); injected load in quarters in [0,1], CPU in {0,25,50,75,100}; '
-                  'inbound history of 1-2 entries (thorough: 3 for two metric types, and more rule pairs) with symbolic gaps in [0,600] ms, each completed after 10/100/250 ms or left open (plus a BBR pattern: two completed entries with response times from {1,100,1000} ms and two or three left in flight); probe inbound or outbound after a gap in [0,600] ms; selected shapes with 2-3 probes in a row (an admitted probe completes at once and is accounted, a rejected one must leave no trace in what the next probe sees)',
+                  'inbound history of 1-2 entries (thorough: more rule pairs and probe sequences) with symbolic gaps in [0,600] ms, each completed after 10/100/250 ms or left open (plus a BBR pattern: two completed entries with response times from {1,100,1000} ms and two or three left in flight); probe inbound or outbound after a gap in [0,600] ms; selected shapes with 2-3 probes in a row (an admitted probe completes at once and is accounted, a rejected one must leave no trace in what the next probe sees)',
         'assumptions': ['load/CPU readings injected through the verif_set_readings hook', 'chain of the real prepare, system and resource-statistic slots plus an observer slot',
                         'observed values recomputed from a ledger with the window function of the default metric (two 500 ms buckets)'],
         'scenarios': [
@@ -350,7 +347,7 @@ PROPS = {
     },
     'C12': {
         'level': 'model_checking',
-        'bounds': 'one rule per run; enum-valued fields of all five families as shapes (thorough: every third element of the full cross product, quick: a covering sample): flow calculate x control x relation '
+        'bounds': 'one rule per run; enum-valued fields of all five families as shapes (thorough: every seventh element of the full cross product, quick: a covering sample): flow calculate x control x relation '
                   '(incl. Custom(7), an associated resource never seen, an empty associated name), breaker strategies incl. Custom, hotspot metric x control x param index -3..3 x keyed, system metric x strategy; '
                   'thresholds from {-1, 0, 0.5, 1, 1e6, NaN}; every other numeric field symbolic over three boundary values (0 / 1 / large); loading entry point in {load-all, load-for-resource, append}; '
                   'empty resource names; then two entries (batch in {0,1,1e6}, 0/1/3 args, attachments) with exits 700 ms later; for a third to a half of the shapes then an append of a known-good rule on the same resource (an ignored invalid rule must stay ignored) and two more entries; then a health probe of every manager',
@@ -370,7 +367,7 @@ PROPS = {
     'C10': {
         'level': 'model_checking',
         'bounds': 'five managers; pool of two valid rules on r1, one on r2, one invalid on r1 and (selected shapes) a rule equal to the first under another id; '
-                  'operation sequences of length 2 (quick) / 2-3 (thorough: 3 for flow, circuit breaker and isolation) over {load-all(S), load-for-resource(r,S), append(x), clear, clear-resource(r)} with S from 7 (5) representative subsets and r in {r1,r2,""}; '
+                  'operation sequences of length 2 (thorough: for every family also with the equal-rule-under-another-id in the pool) over {load-all(S), load-for-resource(r,S), append(x), clear, clear-resource(r)} with S from 7 (5) representative subsets and r in {r1,r2,""}; '
                   'hash-set/map iteration orders inside the managers: every element first, remaining elements in insertion or reversed order (all orders up to 3 elements)',
         'assumptions': ['reported rules are compared as sets under rule equality after every operation; return values only for duplicate-free calls',
                         'HashSet lookups of a rule that is equal but hashed differently (different id) are modelled as misses'],
@@ -382,7 +379,7 @@ PROPS = {
     'C03': {
         'level': 'model_checking',
         'bounds': 'strategies slow-ratio/error-ratio/error-count; 1-2 breakers on one resource (second with doubled retry timeout); 1-2 window buckets of a 1000 ms window; '
-                  'retry timeout 400 ms (shorter than the window) or 1500 ms (longer); event depth 3-5, plus depth 6-7 with the second event scripted (first entry fails), count threshold 1, min_request_amount <= 1 and gaps <= 600 ms, over {enter, complete oldest ok, complete oldest with error}, '
+                  'retry timeout 400 ms (shorter than the window) or 1500 ms (longer); event depth 3-5, plus depth 6 with the second event scripted (first entry fails), count threshold 1, min_request_amount <= 1 and gaps <= 600 ms, over {enter, complete oldest ok, complete oldest with error}, '
                   'each preceded by a symbolic time advance in [0, max(1000, retry)+100] ms; min_request_amount in [0,3]; ratio thresholds from {0,1/4,1/3,1/2,2/3,3/4,1}, count thresholds in [0,4]; max_allowed_rt 100 ms',
         'assumptions': ['virtual clock', 'breaker consultation order is read back from get_breakers_of_resource',
                         'a probe rejected by another breaker returns to Open without a new retry time (as the property states only the return to Open)'],
@@ -394,7 +391,7 @@ PROPS = {
     },
     'C04': {
         'level': 'model_checking',
-        'bounds': 'two resources (one inbound, one outbound), optional flow rule (reject with threshold symbolic in [0,4]; or throttling 10/s with queueing up to 500 ms on one resource and gaps <= 300 ms, so that entries are held before they pass) on the first and isolation rule on the second; op sequences of length 2-3 (quick) / 2-4 (thorough) '
+        'bounds': 'two resources (one inbound, one outbound), optional flow rule (reject with threshold symbolic in [0,4]; or throttling 10/s with queueing up to 500 ms on one resource and gaps <= 300 ms, so that entries are held before they pass) on the first and isolation rule on the second; op sequences of length 2-3 (thorough: two more rule configurations) '
                   'over {build r0, build r1, exit first/second open entry}; batch in [1,3]; gaps in [0,1200] ms; after every op all counters of both nodes and of the inbound node are compared with a ledger',
         'assumptions': ['virtual clock', 'window function of the default metric: two 500 ms buckets ending at the current bucket'],
         'scenarios': [
@@ -441,7 +438,7 @@ PROPS = {
     },
     'C13': {
         'level': 'model_checking',
-        'bounds': '0-3 (quick: selected) / 0-4 slots of each kind with symbolic order values in [0,3] (ties included) added in any order; every check result in {pass, blocked(type i), wait(0)}; one entry, exited once',
+        'bounds': '0-2 slots of each kind in every combination (quick: selected ones), selected chains with 3 slots of one kind, with symbolic order values in [0,3] (ties included) added in any order; every check result in {pass, blocked(type i), wait(0)}; one entry, exited once',
         'assumptions': ['unstable sort modelled as any permutation consistent with the keys'],
         'scenarios': [
             {'name': 'c13_chain', 'shapes': {'quick': c13_shapes('quick'), 'thorough': c13_shapes('thorough')},
@@ -450,7 +447,7 @@ PROPS = {
     },
     'C01': {
         'level': 'model_checking',
-        'bounds': '1-3 direct/reject rules on one resource, window classes default/reuse(1,4,10,20 buckets)/private(250,700,1500,20000 ms); k<=3 (quick) / <=4 requests; '
+        'bounds': '1-3 direct/reject rules on one resource, window classes default/reuse(1,4,10,20 buckets)/private(250,700,1500,20000 ms); k<=3 requests (2 with two rules); '
                   't0 in two buckets before the ring wraps, gaps in [0, 2.5*max interval], batch in [0,3], thresholds in halves in [0,4], any open entry may be exited before each request',
         'assumptions': ['virtual clock (hook) drives curr_time_millis', 'HashMap/HashSet modelled as insertion-ordered maps with run-chosen iteration order',
                         'f64 values derived from symbolic integers are exact dyadic rationals (side conditions checked), other floats are concrete IEEE doubles'],
